@@ -252,15 +252,30 @@ def explore_split(modname, params, depth=3, procs=None, limit=4, timeout=3600):
     if procs == 1 or len(jobs) <= 1:
         results = [_job(j) for j in jobs]
     else:
-        ctx = mp.get_context("fork")
-        with ctx.Pool(min(procs, len(jobs))) as pool:
-            ar = pool.map_async(_job, jobs, chunksize=1)
+        # ProcessPoolExecutor (not multiprocessing.Pool): a worker that dies abruptly (e.g. a crash inside the
+        # solver library) raises BrokenProcessPool instead of hanging the whole check
+        import concurrent.futures as cf
+
+        results = []
+        ex = cf.ProcessPoolExecutor(max_workers=min(procs, len(jobs)), mp_context=mp.get_context("fork"))
+        try:
+            futs = [ex.submit(_job, j) for j in jobs]
             try:
-                results = ar.get(timeout=timeout)
-            except mp.TimeoutError:
-                pool.terminate()
+                for f in cf.as_completed(futs, timeout=timeout):
+                    results.append(f.result())
+            except cf.TimeoutError:
                 agg["errors"].append(f"exploration exceeded {timeout}s wall")
                 results = []
+            except cf.process.BrokenProcessPool as e:
+                agg["errors"].append(f"a worker process died ({e}); exploration incomplete")
+                results = []
+        finally:
+            for p in list(getattr(ex, "_processes", {}).values()):
+                try:
+                    p.terminate()
+                except Exception:
+                    pass
+            ex.shutdown(wait=False, cancel_futures=True)
     for r in results:
         for k in ("paths", "exc_paths", "queries", "unknowns"):
             agg[k] += r[k]
@@ -285,6 +300,44 @@ def explore_split(modname, params, depth=3, procs=None, limit=4, timeout=3600):
     agg["wall"] = round(time.time() - t0, 2)
     agg["solver_s"] = round(agg["solver_s"], 2)
     return agg
+
+
+def pmap(fn, items, procs=None, timeout=3000, chunk=8):
+    """process-parallel map that cannot hang on a dead worker. returns (results in order, error or None)."""
+    import concurrent.futures as cf
+
+    procs = procs or min(16, os.cpu_count() or 4)
+    items = list(items)
+    if not items:
+        return [], None
+    chunks = [items[i : i + chunk] for i in range(0, len(items), chunk)]
+    out = [None] * len(chunks)
+    ex = cf.ProcessPoolExecutor(max_workers=min(procs, len(chunks)), mp_context=mp.get_context("fork"))
+    err = None
+    try:
+        futs = {ex.submit(_pmap_chunk, (fn, c)): i for i, c in enumerate(chunks)}
+        try:
+            for f in cf.as_completed(futs, timeout=timeout):
+                out[futs[f]] = f.result()
+        except cf.TimeoutError:
+            err = f"parallel map exceeded {timeout}s wall"
+        except cf.process.BrokenProcessPool as e:
+            err = f"a worker process died ({e})"
+    finally:
+        for p in list(getattr(ex, "_processes", {}).values()):
+            try:
+                p.terminate()
+            except Exception:
+                pass
+        ex.shutdown(wait=False, cancel_futures=True)
+    if err:
+        return [], err
+    return [x for c in out for x in c], None
+
+
+def _pmap_chunk(args):
+    fn, chunk = args
+    return [fn(x) for x in chunk]
 
 
 class Harness:
